@@ -5,14 +5,19 @@
 (*                                                                                         *)
 (* Prog[w] is the list of file operations of worker command w.  For the real instance it   *)
 (* is EXTRACTED from strace logs of the real command (harness/drivers/c24.py writes the     *)
-(* module MCTestCaseGen with `Prog <- MCProg`); semantics of the operations: TestCaseGenOps.*)
+(* module TestCaseGenData); semantics of the operations: TestCaseGenOps.                   *)
 (* TLC explores every interleaving (at the granularity of single system calls, including   *)
 (* the individual steps inside os.makedirs) of every group of workers in GroupSeq.          *)
-EXTENDS TestCaseGenOps
+EXTENDS TestCaseGenOps, TestCaseGenData
+(* TestCaseGenData defines   Prog     == <<ops of worker 1, ops of worker 2, ...>>           *)
+(*                           GroupSeq == <<group 1, group 2, ...>>  (increasing worker ids)  *)
+(* spec/TestCaseGenData.tla is a small hand-written instance (so that the module parses and *)
+(* can be explored on its own); at check time the driver replaces it by the instance it has *)
+(* extracted from the real commands.  (A plain definition rather than `CONSTANT Prog` with   *)
+(* `Prog <- ...` in the cfg: TLC re-evaluates substituted constants at every use -- measured *)
+(* 12 271 evaluations of the operation table for 123 states -- but caches definitions.)      *)
 
-CONSTANTS Prog,      \* <<ops of worker 1, ops of worker 2, ...>>
-          GroupSeq,  \* <<group 1, group 2, ...>>, each group an increasing sequence of worker ids
-          Reduce     \* TRUE: partial-order reduction (a worker whose next step is independent of
+CONSTANT Reduce      \* TRUE: partial-order reduction (a worker whose next step is independent of
                      \* all others runs first); FALSE: every interleaving of every step
 
 VARIABLES gi,        \* index of the group being explored
